@@ -10,7 +10,25 @@ import subprocess
 from vt import core
 
 WORDS = ["a", "b", "foo", "bar", "yes", "no", "x", "t", "Ab", "zz9"]
-NUMS = ["0", "1", "2", "3", "1.0", "01", "10", "1.5", "1.50", "2.50", "-1", "+1", "007", ".5", "0.5", "1.", "-0", "3.14", "42"]
+NUMS = ["0", "1", "2", "3", "1.0", "01", "10", "1.5", "1.50", "2.50", "-1", "+1", "007", ".5", "0.5", "1.", "-0", "3.14", "42",
+        # exponent notation, with and without a fraction / sign / upper-case E (int() rejects them, float() and PHP's is_numeric
+        # accept them): numerically equal to other entries of this list
+        "1e0", "1E0", "1e1", "1E1", "1.0e1", "5e-1", "5E-1", "15e-1", "1.5e0", "2e0", "3E0", "0e0", "1e+1", ".5e0", "-1e0",
+        "42e0", "4.2e1", "420e-1", "1000", "1e3", "1E3", "1.0e3", "25", "2.5E1", "2.5e1", "250e-1"]
+# every way the same number can be written such that both MediaWiki (PHP is_numeric) and int()/float() take it for a number:
+# value -> spellings (num_family: all pairs inside a class compare EQUAL by value, pairs across neighbouring classes differ)
+NUM_CLASSES = [
+    ["7", "+7", "07", "007", "+07", "7.0", "7.", "7.00", "7e0", "7E0", "7.0e0", "70e-1", "0.7e1", ".7e1", "0.7E+1", "+7e0"],
+    ["1000", "1e3", "1E3", "1e+3", "1.0e3", "1.e3", "10e2", "0.1e4", "+1e3", "1000.0", "01000", "10000e-1"],
+    ["0.5", ".5", "0.50", "5e-1", "5E-1", "+.5", "50e-2", "0.05e1", "00.5"],
+    ["-40", "-4e1", "-4E1", "-40.0", "-4.0e1", "-400e-1", "-040"],
+    ["0", "-0", "0.0", "0e0", "0e5", "-0e0", ".0", "0.", "00", "+0", "0E-3"],
+    ["2", "2e0", "2.0", "+2", "02", "20e-1", "0.2e1"],
+    ["25", "2.5e1", "2.5E1", "25.0", "250e-1", "025", ".25e2"],
+    ["1e4", "10000", "1E4", "10e3"],
+]
+# spellings that are NOT numbers for either side: compared as text (equal only when identical after trimming)
+NOT_NUMS = ["1e", "e3", "1e3x", "1 e3", "1e 3", "7,0", "x7", "1e-", "1e+", ".", "-", "+", "1.2.3", "1ee3", ".e3"]
 PADS = ["", "", "", " ", "\n", "  ", " \n", "\n "]
 PNAMES = ["1", "2", "3", "x", "y", "k"]
 TNAMES = ["t1", "t2", "t3", "t4"]
@@ -474,6 +492,54 @@ def eq_family():
     return out
 
 
+def num_family():
+    """NUMBERS BY VALUE, deterministically: for every pair (a, b) of spellings of the same value in NUM_CLASSES (plain, signed,
+    zero-padded, with trailing .0 / bare point, exponent notation with and without fraction, sign of the exponent, upper-case
+    E) and for pairs of different values / of non-numbers, the comparison `a = b` is put where the template language compares:
+    #ifeq directly (with blanks around the operands), #ifeq inside a template body with the operands arriving as positional
+    arguments, as named arguments, through a parameter default and out of another template, and #switch (literal keys and a
+    computed key).  Reference: both numeric -> equal iff equal VALUES; otherwise equal iff identical text."""
+    T = lambda s: [("t", s)]      # noqa: E731
+    P = lambda n, d=None: ("p", n, d)      # noqa: E731
+    out = []
+    pairs = []
+    for ci, cls in enumerate(NUM_CLASSES):
+        base = cls[0]
+        for sp in cls[1:]:
+            pairs.append((sp, base))
+            pairs.append((base, sp))
+        for i in range(1, len(cls) - 1):
+            pairs.append((cls[i], cls[i + 1]))
+        other = NUM_CLASSES[(ci + 1) % len(NUM_CLASSES)]
+        for i, sp in enumerate(cls):
+            pairs.append((sp, other[i % len(other)]))          # different values
+    for i, bad in enumerate(NOT_NUMS):
+        pairs.append((bad, bad))
+        pairs.append((bad, NUM_CLASSES[i % len(NUM_CLASSES)][0]))
+        pairs.append((NUM_CLASSES[i % len(NUM_CLASSES)][1], bad))
+    cmp_pos = ("t1", [("q", [P("1")], [P("2")], T(" same "), T("different"))])
+    cmp_named = ("t2", [("q", [P("left")], [P("right", T("1000"))], T("same"), T(" different "))])
+    for j, (a, b) in enumerate(pairs):
+        const = ("t3", T(a))
+        uni = [cmp_pos, cmp_named, const]
+        out.append((uni, [("q", T(" " + a + " "), T(" " + b), T("same"), T("different"))]))
+        shape = j % 6
+        if shape == 0:
+            out.append((uni, [("c", "t1", [(None, T(a)), (None, T(b))])]))
+        elif shape == 1:
+            out.append((uni, [("c", "t2", [("right", T(" " + b + " ")), ("left", T(" " + a + " "))])]))
+        elif shape == 2:
+            out.append((uni, [("c", "t2", [("left", T(b))]), ("t", "/"), ("c", "t2", [("left", [("c", "t3", [])])])]))
+        elif shape == 3:
+            out.append((uni, [("w", T(a), [([], T(b), T("same"))], (True, T("different")))]))
+        elif shape == 4:
+            out.append((uni, [("w", T(a), [([T("zz")], [("c", "t3", [])], T("computed")), ([], T(b), T("same"))], (False, T("different")))]))
+        else:
+            out.append((uni, [("c", "t1", [(None, [("c", "t3", [])]), (None, T(b))]), ("t", " "),
+                              ("q", [("c", "t3", [])], T(b), T("same"), None)]))
+    return out
+
+
 # OPEN DEFECT (fixes/C04-equal-split-single-node-argument.diff): evaluate.equal_split looks for the eqmark with
 # node.index(eqmark) also when the argument is ONE node - IfNode / IfEqNode are tuple subclasses whose children are their own
 # arguments - so a positional argument, #switch fall-through key or bare default that consists of exactly one #if/#ifeq whose
@@ -549,6 +615,8 @@ def run(run, src):
                 cases.append({"id": len(cases), "uni": _tuplify(o["uni"]), "page": _tuplify(o["page"]), "directed": True})
     for uni, page in eq_family():
         cases.append({"id": len(cases), "uni": uni, "page": page, "directed": True, "family": "eq"})
+    for uni, page in num_family():
+        cases.append({"id": len(cases), "uni": uni, "page": page, "directed": True, "family": "num"})
     if EQ_BRANCH_ARG:
         for uni, page in eq_branch_family():
             cases.append({"id": len(cases), "uni": uni, "page": page, "directed": True, "family": "eq-branch-arg"})
@@ -654,6 +722,7 @@ def run(run, src):
         run.hit(fp, what, replay)
     dist["eq_text"] = {"programs_with_equals_sign_in_a_text_leaf": sum(1 for c in cases if c.get("has_eq")),
                        "deterministic_eq_family": sum(1 for c in cases if c.get("family") == "eq"),
+                       "deterministic_num_family": sum(1 for c in cases if c.get("family") == "num"),
                        "generated_programs_skipped_for_the_open_equal_split_defect": n_excluded,
                        "VERIF_C04_EQ_BRANCH_ARG": EQ_BRANCH_ARG}
     run.tie("C04(a) templ.parser.parse(serialise p) vs compile p (page + every template)", n_parse, dis_parse)
@@ -670,8 +739,12 @@ def run(run, src):
                  "#switch case/#default after their first '=', page and template text - and never where it is syntax (top level of a "
                  "positional argument, #switch keys, bare #switch default); names of named arguments carry blanks on either side "
                  "({{t| k = v }}) in 30%% of the cases; a deterministic family (eq_family) puts every spelling at every such "
-                 "position in one-construct programs; plus directed seeds and the corpus; of the programs whose expansion differs from "
-                 "the reference the %d smallest are reported; " % (EQ_P, SMALLEST_HITS) +
+                 "position in one-construct programs; NUMBERS BY VALUE (num_family): %d programs comparing every pair of spellings of the "
+                 "same value (8 values x up to 16 spellings: signs, zero padding, trailing .0 / bare point, exponent notation with and "
+                 "without a fraction, signed exponents, upper-case E), pairs of different values and non-numbers (1e, e3, 1e3x, ..) in "
+                 "#ifeq directly, through positional / named arguments, a parameter default, another template, and as #switch keys "
+                 "(literal and computed); the random text leaves use the same spellings; plus directed seeds and the corpus; of the programs whose expansion differs from "
+                 "the reference the %d smallest are reported; " % (EQ_P, len(num_family()), SMALLEST_HITS) +
                  "distinct = distinct (page text, template texts); non-trivial = depth >= 2 and >= 3 different constructs"),
         "trusted": ["hand-written Gallina model of evaluate.pyx/nodes.pyx (coq/C03/Model.v) and of the expected parse (compile_r = compile with the '=' of argument texts cut out as eqmark; compile_r p = compile p is proved for programs without '='); tied by the runs (a), (b), (b')",
                     "the reference semantics eval (coq/C04/Model.v) is the reading of the property text: PHP trim set, last binding wins, first matching #switch case wins",
@@ -679,7 +752,7 @@ def run(run, src):
         "assumptions": ["OPEN DEFECT excluded from the generated programs until fixes/C04-equal-split-single-node-argument.diff is in /repo "
                         "(VERIF_C04_EQ_BRANCH_ARG=1 includes it): a positional argument / #switch fall-through key / bare default that consists "
                         "of exactly one #if or #ifeq with a branch that is exactly '='",
-                        "leaves are ASCII words/plain decimals (no exponent, underscore, inf/nan) and '=' / '!=' in text contexts, no other template-syntax characters, blanks are space/newline",
+                        "leaves are ASCII words and numbers [+-]?(digits[.digits*]|.digits)([eE][+-]?digits)? with at most 5 significant digits and exponents -3..5 (no underscore, inf/nan, non-ASCII digits: there int()/float() and PHP is_numeric differ) and '=' / '!=' in text contexts, no other template-syntax characters, blanks are space/newline",
                         "argument names of one call are pairwise distinct; called templates exist; nesting stays below recursion_limit=100",
                         "template names are not magic words"],
         "distribution": {"templates_programs": dist},
